@@ -659,6 +659,30 @@ func genG02(repo string, w *Out) error {
 		hops = append(hops, s)
 	}
 	w.DefStrList("hop_by_hop", hops)
+	// removeHopByHopHeaders: how the fields nominated by Connection are found
+	rh, err := hh.Func("removeHopByHopHeaders")
+	if err != nil {
+		return err
+	}
+	var loops []string
+	for _, st := range rh.Body.List {
+		if rs, ok := st.(*ast.RangeStmt); ok {
+			loops = append(loops, hh.Src(rs))
+		}
+	}
+	if len(loops) != 2 || loops[1] != "for _, k := range hopByHopHeaders { header.Del(k) }" {
+		return fmt.Errorf("removeHopByHopHeaders: loops %q are not the shape the model knows", loops)
+	}
+	switch loops[0] {
+	case `for _, vs := range header["Connection"] { for _, v := range strings.Split(vs, ",") { k := http.CanonicalHeaderKey(strings.TrimSpace(v)) header.Del(k) } }`,
+		`for _, vs := range header["Connection"] { for _, v := range strings.Split(vs, ",") { header.Del(strings.TrimSpace(v)) } }`:
+		w.DefBool("hbh_trims_connection_token", true)
+	case `for _, vs := range header["Connection"] { for _, k := range strings.Split(vs, ",") { header.Del(k) } }`,
+		`for _, vs := range header["Connection"] { for _, v := range strings.Split(vs, ",") { k := http.CanonicalHeaderKey(v) header.Del(k) } }`:
+		w.DefBool("hbh_trims_connection_token", false)
+	default:
+		return fmt.Errorf("removeHopByHopHeaders: Connection loop %q is not a shape the model knows", loops[0])
+	}
 	return nil
 }
 
